@@ -1,11 +1,173 @@
 /-
   C19 — property theorems only (helper lemmas live in Lemmas*.lean).
+
+  Clauses of the property and the theorem that covers each:
+    * the routes registered in the forwarder (replay of the emitted register / unregister stream)
+      equal what the current tables prescribe, after every sequence of table changes
+        -> commands_replay_eq_prescribed        (any history, arbitrary table changes between updates)
+        -> next_hops_have_neighbor_state        (the side condition is an invariant of the router: F-19a is
+                                                 not reachable; no command ever names face 0)
+    * the prefix set a peer reconstructs from the published op log equals the announced set
+        -> log_replay_eq_announced              (every publisher history, every peer start point / interleaving)
+        -> announced_set_is_spec                (the publisher's set is the announced-and-not-withdrawn set)
 -/
-import NdnVerif.C19.Model
+import NdnVerif.C19.LemmasNbr
+import NdnVerif.C19.LemmasLog
 namespace Ndn.C19
+open Spec (Routes rget replay)
 
 /-- the regenerated constants are the protocol's: infinity 16, snapshot gap 100 -/
 theorem consts_are_protocol : inf = 16 ∧ Ndn.Gen.C19.fetchGap = 100 ∧ Ndn.Gen.C19.snapshotThreshold = 100 :=
   ⟨rfl, rfl, rfl⟩
+
+/-! ### (A) installed routes mirror the tables -/
+
+/-- what can happen between two route updates: ANY change of the tables (RIB, neighbour faces,
+    prefix table — not even restricted to what the router's own algorithms produce), or a `fibUpdate` -/
+inductive InstEvent where
+  | tables (t : Tables)
+  | fibUpdate
+
+/-- tables, the installer's own state, and the forwarder's route table (replay of every command) -/
+structure InstState where
+  t : Tables
+  fib : Fib
+  routes : Routes
+
+def InstState.init (t : Tables) : InstState := { t := t, fib := Fib.empty, routes := [] }
+
+def InstState.step (prefixOf : Nat → Nat) (s : InstState) : InstEvent → InstState
+  | .tables t' => { s with t := t' }
+  | .fibUpdate =>
+    let r := fibUpdate prefixOf s.t s.fib
+    { s with fib := r.1, routes := replay s.routes r.2 }
+
+def InstState.run (prefixOf : Nat → Nat) (s : InstState) (evs : List InstEvent) : InstState :=
+  evs.foldl (InstState.step prefixOf) s
+
+theorem run_mirror (prefixOf : Nat → Nat) (evs : List InstEvent) : ∀ (s : InstState),
+    Mirror s.fib s.routes → Mirror (s.run prefixOf evs).fib (s.run prefixOf evs).routes := by
+  induction evs with
+  | nil => intro s m; exact m
+  | cons ev t ih =>
+    intro s m
+    simp only [InstState.run, List.foldl_cons]
+    apply ih
+    cases ev with
+    | tables t' => exact m
+    | fibUpdate => exact (fibUpdate_spec prefixOf s.t m (desired_nodup prefixOf s.t)).1
+
+/-- After EVERY `fibUpdate` of ANY history (arbitrary table changes and earlier updates, starting from
+    an empty installer): the forwarder's route table obtained by replaying the whole emitted
+    register / unregister stream holds, for every (prefix, face), exactly the lowest cost the
+    specification prescribes from the current tables — over the reachable remote routers announcing
+    the prefix (and each router's own routing prefix), the faces of the best and the finite second-best
+    next hop — and nothing else (`none` = no route: unreachable, withdrawn, abandoned face).
+    Side condition `NbrOk`: every next hop in use has a neighbour state; it is an invariant of the
+    router (`next_hops_have_neighbor_state`). -/
+theorem commands_replay_eq_prescribed (prefixOf : Nat → Nat) (t0 : Tables) (evs : List InstEvent) :
+    let s := (InstState.init t0).run prefixOf evs
+    NbrOk s.t →
+    ∀ name face, rget (s.step prefixOf .fibUpdate).routes (name, face) =
+      Spec.prescribedCost (prescription prefixOf s.t) name face := by
+  intro s ok name face
+  have m : Mirror s.fib s.routes := run_mirror prefixOf evs _ mirror_empty
+  have h := (fibUpdate_spec prefixOf s.t m (desired_nodup prefixOf s.t)).2 name face
+  simp only [InstState.step]
+  rw [h, desCost_eq_prescribed prefixOf s.t ok]
+
+/-- router 2 reaches router 7 via neighbour 5 (face 3) at cost 2 and via neighbour 6 (face 4) at cost 4;
+    7 announces prefix 100 -/
+def exTables : Tables :=
+  { self := 2
+    nbrs := [(5, { face := 3, active := true }), (6, { face := 4, active := false })]
+    pfx := [(7, [100])]
+    rib := (C18.ribUpdate 2 (C18.ribUpdate 2 (C18.Router.start 2).rib 5 [⟨7, 7, 1, 16⟩]).1 6 [⟨7, 9, 3, 16⟩]).1 }
+
+/-- both faces are registered for 7's routing prefix (name 1007) and for the announced prefix 100 -/
+example : (fibUpdate (· + 1000) exTables Fib.empty).2 =
+    [.register 1007 3 2, .register 1007 4 4, .register 100 3 2, .register 100 4 4] := by decide
+
+/-- Along every history of router-level events from start-up (sync Interests of neighbours on any
+    faces, advertisements, dead-neighbour checks, prefix ops), every next hop the installer reads has a
+    neighbour state: `GetFibEntries` never falls back to face 0 (decides F-19a: not reachable). -/
+theorem next_hops_have_neighbor_state (self : Nat) (evs : List RouterEvent) :
+    NbrOk (evs.foldl Tables.step (Tables.start self)) := by
+  have : ∀ (evs : List RouterEvent) (t : Tables), NbrInv t → NbrInv (evs.foldl Tables.step t) := by
+    intro evs
+    induction evs with
+    | nil => intro t h; exact h
+    | cons ev r ih => intro t h; exact ih _ (nbrInv_step h ev)
+  exact nbrOk_of_inv (this evs _ (nbrInv_start self))
+
+example : NbrOk (([.ping 5 3 true, .adv 5 [⟨7, 7, 1, 16⟩], .dead 5] : List RouterEvent).foldl Tables.step (Tables.start 2)) :=
+  next_hops_have_neighbor_state 2 _
+
+/-! ### (B) the prefix log replicates the announced set -/
+
+/-- For every publisher history and every interleaving with the events of any number of peers
+    (learning any sequence number — also stale or future ones —, deliveries from the publisher's repo,
+    time-outs; peers may start at any point), provided sequence numbers do not wrap around 2^64:
+    every peer's prefix set is the publisher's announced set after the publication whose sequence
+    number the peer has reached (`setAtL log known`; snapshot or op by op, gap > 100 forces a snapshot),
+    the peer never runs ahead of the publisher, and a peer that has caught up holds exactly the
+    publisher's current set. -/
+theorem log_replay_eq_announced (seq0 : UInt64) (k : Nat) (evs : List LogEvent)
+    (hw : seq0.toNat + evs.length < 2 ^ 64) :
+    let s := (LogSys.init seq0 k).run evs
+    ∀ q ∈ s.peers, q.set = setAtL s.pub.log q.known ∧ q.known ≤ s.pub.seq ∧
+      (q.known = s.pub.seq → q.set = s.pub.set) := by
+  intro s q hq
+  have inv : SysInv s := sysInv_run evs (sysInv_init seq0 k) hw
+  have pi := inv.peers q hq
+  refine ⟨pi.set, pi.le, ?_⟩
+  intro he
+  rw [pi.set, he, inv.pub.cur]
+
+/-- a late peer jumps to the snapshot, an up-to-date peer follows op by op -/
+example :
+    let s := (LogSys.init 1000 2).run [.announce 7, .sync 0 1001, .deliver 0, .announce 8, .withdraw 7,
+      .sync 0 1003, .deliver 0, .deliver 0, .sync 1 1003, .deliver 1]
+    (s.peers.map fun q => (q.known, q.set)) = [(1003, [8]), (1003, [8])] ∧ s.pub.set = [8] := by decide
+
+/-- the announced set by the operations issued (specification side) -/
+def specSet (ops : List Spec.PubOp) : List Nat := ops.foldl (fun s op => (Spec.announce s op).1) []
+
+def Pub.apply (p : Pub) : Spec.PubOp → Pub
+  | .announce n => p.announce n
+  | .withdraw n => p.withdraw n
+
+theorem pub_set_mem (p : Pub) (s : List Nat) (h : ∀ n, n ∈ p.set ↔ n ∈ s) (op : Spec.PubOp) :
+    ∀ n, n ∈ (p.apply op).set ↔ n ∈ (Spec.announce s op).1 := by
+  intro n
+  cases op with
+  | announce a =>
+    by_cases hm : a ∈ p.set
+    · have hs : a ∈ s := (h a).1 hm
+      simp [Pub.apply, Pub.announce, Spec.announce, hm, hs, h]
+    · have hs : a ∉ s := fun x => hm ((h a).2 x)
+      simp only [Pub.apply, Pub.announce, Spec.announce, List.contains_iff_mem, hm, hs, if_false, Pub.publishOp]
+      split <;> simp [Pub.publishSnap, h, or_comm]
+  | withdraw a =>
+    by_cases hm : a ∈ p.set
+    · have hs : a ∈ s := (h a).1 hm
+      simp only [Pub.apply, Pub.withdraw, Spec.announce, List.contains_iff_mem, hm, hs, if_true, Pub.publishOp]
+      split <;> simp [Pub.publishSnap, h]
+    · have hs : a ∉ s := fun x => hm ((h a).2 x)
+      simp [Pub.apply, Pub.withdraw, Spec.announce, hm, hs, h]
+
+/-- the publisher's table holds exactly the prefixes announced and not withdrawn since -/
+theorem announced_set_is_spec (seq0 : UInt64) (ops : List Spec.PubOp) :
+    ∀ n, n ∈ (ops.foldl Pub.apply (Pub.init seq0)).set ↔ n ∈ specSet ops := by
+  have : ∀ (ops : List Spec.PubOp) (p : Pub) (s : List Nat), (∀ n, n ∈ p.set ↔ n ∈ s) →
+      ∀ n, n ∈ (ops.foldl Pub.apply p).set ↔ n ∈ ops.foldl (fun s op => (Spec.announce s op).1) s := by
+    intro ops
+    induction ops with
+    | nil => intro p s h; exact h
+    | cons op r ih => intro p s h; exact ih _ _ (pub_set_mem p s h op)
+  exact this ops _ [] (by intro n; simp [Pub.init])
+
+example : (([.announce 3, .announce 5, .withdraw 3, .withdraw 9] : List Spec.PubOp).foldl Pub.apply (Pub.init 77)).set = [5] := by
+  decide
 
 end Ndn.C19
